@@ -313,6 +313,9 @@ class PDFXRefStream(PDFBaseXRef):
                 assert self.entlen is not None
                 assert self.data is not None
                 offset = self.entlen * (index + i)
+                if offset >= len(self.data):
+                    # /Index announces more entries than the stream holds
+                    break
                 ent = self.data[offset : offset + self.entlen]
                 f1 = nunpack(ent[: self.fl1], 1)
                 if f1 == 1 or f1 == 2:
